@@ -198,7 +198,10 @@ def surface(t):
 def render_surface(S):
     L = ['#[quantity(%s)]' % S['qargs']['text'] if S['qargs'] else '#[quantity]']
     descr = []
-    for a in S['attrs']:
+    for ia, a in enumerate(S['attrs']):
+        # foreign attributes (documentation, lints) in between the unit attributes: irrelevant to well-formedness
+        for line in (S.get('inter') or {}).get(ia, []):
+            L.append(line)
         if a['parens']:
             L.append('#[%s(%s)]' % (a['a'], ', '.join(x for _, x in a['args']) if not a.get('raw') else a['raw']))
         else:
@@ -249,11 +252,12 @@ def c12_defects(rnd, S0, has_ref, is_derived):
             S['attrs'].insert(rnd.randint(0, len(S['attrs'])), {'a': 'ref_unit', 'args': [('I', 'Second_Ref'), ('S', '"r2"')], 'parens': True})
         case('two_ref_units', two_ref)
 
-        def ref_scale(S):
-            a = S['attrs'][refs[0]]
-            pos = 3 if len(a['args']) > 2 and a['args'][2][0] == 'I' else 2
-            a['args'].insert(pos, ('N', '1.0'))
-        case('ref_unit_with_scale', ref_scale)
+        for lit in ('1.0', '1', '1000', '1e0', '0.001'):
+            def ref_scale(S, lit=lit):
+                a = S['attrs'][refs[0]]
+                pos = 3 if len(a['args']) > 2 and a['args'][2][0] == 'I' else 2
+                a['args'].insert(pos, ('N', lit))
+            case('ref_unit_with_scale', ref_scale)
 
         def unit_noscale(S):
             a = S['attrs'][u0]
@@ -278,9 +282,10 @@ def c12_defects(rnd, S0, has_ref, is_derived):
             a['args'] = [a['args'][0], a['args'][1], ('I', 'KILO'), ('I', 'MEGA')]
         case('ref_unit_two_prefixes', ref_two_prefixes)
 
-        def wrong_order(S):
-            S['attrs'][u0]['args'] = [S['attrs'][u0]['args'][0], S['attrs'][u0]['args'][1], ('N', '10.0'), ('I', 'KILO')]
-        case('unit_scale_before_prefix', wrong_order)
+        for lit in ('10.0', '1000'):
+            def wrong_order(S, lit=lit):
+                S['attrs'][u0]['args'] = [S['attrs'][u0]['args'][0], S['attrs'][u0]['args'][1], ('N', lit), ('I', 'KILO')]
+            case('unit_scale_before_prefix', wrong_order)
 
         def doc_not_last(S):
             S['attrs'][u0]['args'] = [S['attrs'][u0]['args'][0], S['attrs'][u0]['args'][1], ('S', '"doc"'), ('N', '10.0')]
@@ -291,9 +296,10 @@ def c12_defects(rnd, S0, has_ref, is_derived):
             a['args'] = [a['args'][0], a['args'][1], ('S', '"1.0"'), ('S', '"doc"')]
         case('unit_scale_as_string', str_scale)
     else:
-        def scale_noref(S):
-            S['attrs'][u0]['args'].insert(2, ('N', '2.5'))
-        case('scale_without_ref_unit', scale_noref)
+        for lit in ('2.5', '2', '1'):
+            def scale_noref(S, lit=lit):
+                S['attrs'][u0]['args'].insert(2, ('N', lit))
+            case('scale_without_ref_unit', scale_noref)
 
         def pfx_noref(S):
             S['attrs'][u0]['args'].insert(2, ('I', 'KILO'))
@@ -434,7 +440,21 @@ def c12(ctx):
                     extra.append(('derived_res_no_ref_unit', S, prelude, env_ref))
                 for (nm, S) in cases:
                     extra.append((nm, S, prelude, env_ref))
+                # every case twice: as it is, and with documentation comments / lint attributes in between the unit
+                # attributes (before the first one, between any two, after the last)
+                import copy as _copy
+                inter_cases = []
                 for (nm, S, pre, envd) in extra:
+                    S2 = _copy.deepcopy(S)
+                    S2['inter'] = {}
+                    for ia in range(len(S2['attrs'])):
+                        r = rnd.random()
+                        if ia > 0 and r < 0.6:
+                            S2['inter'][ia] = ['/// a remark placed between the unit attributes (%d)' % ia] if r < 0.4 else ['#[allow(dead_code)]']
+                    if len(S2['attrs']) > 1 and not S2['inter']:
+                        S2['inter'][1] = ['/// a remark placed between the unit attributes']
+                    inter_cases.append((nm, S2, pre, envd))
+                for (nm, S, pre, envd) in extra + inter_cases:
                     lines, abstract = render_surface(S)
                     head = ['#![allow(dead_code, unused, non_camel_case_types)]', 'use quantities::prelude::*;'] + pre
                     src = head + lines
@@ -546,6 +566,8 @@ def c19(ctx):
             name = t['T']
             ru = next(u for u in t['units'] if (u.get('def') or {}).get('ref')) if not t.get('noref') else t['units'][0]
             L.append('pub fn use_%s(a: AmountT) -> %s::%s { a * %s::%s }' % (f, path, name, path, qv.const_of(ru['w'])))
+            # "exposes that quantity": every published unit, as enum variant and as constant
+            L.append('pub fn units_%s() -> [%s::%sUnit; %d] { [%s] }' % (f, path, name, len(t['units']), ', '.join('%s::%s' % (path, qv.const_of(u['w'])) for u in t['units'])))
             dv = t.get('derive')
             if dv:
                 lt = 'AmountT' if dv['l'] == 'Amount' else '%s::%s' % (dt[dv['l']]['path'], dv['l'])
@@ -599,10 +621,106 @@ def c19(ctx):
     with ThreadPoolExecutor(max_workers=4) as ex:
         for res in ex.map(lambda lane: [run_cfg(ip) for ip in lane], lanes):
             evs.extend(res)
-    # fixed operation corpus in a minimal and in the full configuration
+    # generated operation corpus (every quantity type enabled by the configuration: registry, conversions, comparisons,
+    # arithmetic, formatting, fitting, its derivation operator): a configuration and the full one must agree on
+    # everything the smaller one offers
+    def closure(fs):
+        todo, seen = list(fs), set()
+        while todo:
+            f = todo.pop()
+            if f in seen:
+                continue
+            seen.add(f)
+            todo += [d for d in feats.get(f, []) if d in FEATS]
+        return seen
+
+    def gen_corpus(fs):
+        on = closure(fs)
+        base = open(os.path.join(ctx['root'], 'tools', 'corpus_main.rs'), encoding='utf-8').read()
+        head, _, _ = base.partition('fn main() {')
+        head = head.replace('use quantities::{duration::*, length::*, mass::*, temperature::*, Converter};', 'use quantities::Converter;')
+        body = []
+        for f in FEATS:
+            if f not in on:
+                continue
+            t = byfeat[f]
+            Q = '%s::%s' % (t['path'], t['T'])
+            if t.get('noref'):
+                body.append('    temperature_section();' if t['T'] == 'Temperature' else '')
+                continue
+            body.append('    corpus!(%s, %sUnit, "%s");' % (Q, Q, t['T']))
+            dv = t.get('derive')
+            if dv:
+                rq = '%s::%s' % (dt[dv['r']]['path'], dv['r'])
+                if dv['l'] == 'Amount':
+                    body.append('    derived_amnt!(%s, %sUnit, "%s");' % (rq, rq, t['T']))
+                else:
+                    lq = '%s::%s' % (dt[dv['l']]['path'], dv['l'])
+                    body.append('    derived!(%s, %sUnit, %s, %sUnit, %s, "%s");' % (lq, lq, rq, rq, dv['op'], t['T']))
+        extra = '''
+macro_rules! derived {
+    ($LQ:ty, $LU:ty, $RQ:ty, $RU:ty, $op:tt, $name:expr) => {{
+        let lus: Vec<$LU> = <$LU as Unit>::iter().collect();
+        let rus: Vec<$RU> = <$RU as Unit>::iter().collect();
+        for (i, u) in lus.iter().enumerate() {
+            for (j, v) in rus.iter().enumerate() {
+                for (a, b) in [(Amnt!(1.0), Amnt!(1.0)), (Amnt!(2.5), Amnt!(0.5)), (Amnt!(1234.5), Amnt!(-8.0))] {
+                    let x: $LQ = a * *u;
+                    let y: $RQ = b * *v;
+                    println!("{} derived {} {} {} {} -> {}", $name, i, j, show(a), show(b), guard(move || { let r = x $op y; format!("{} {:?}", show(r.amount()), r.unit()) }));
+                }
+            }
+        }
+    }};
+}
+macro_rules! derived_amnt {
+    ($RQ:ty, $RU:ty, $name:expr) => {{
+        let rus: Vec<$RU> = <$RU as Unit>::iter().collect();
+        for (j, v) in rus.iter().enumerate() {
+            for (a, b) in [(Amnt!(1.0), Amnt!(1.0)), (Amnt!(2.5), Amnt!(0.5)), (Amnt!(1234.5), Amnt!(-8.0))] {
+                let y: $RQ = b * *v;
+                println!("{} derived {} {} {} -> {}", $name, j, show(a), show(b), guard(move || { let r = a / y; format!("{} {:?}", show(r.amount()), r.unit()) }));
+            }
+        }
+    }};
+}
+'''
+        temp = '''
+fn temperature_section() {
+    use quantities::temperature::*;
+    let tus: Vec<TemperatureUnit> = TemperatureUnit::iter().collect();
+    let temps: Vec<AmountT> = vec![Amnt!(0.0), Amnt!(-17.3), Amnt!(21.5), Amnt!(293.15), Amnt!(-40.0), Amnt!(100.0), Amnt!(36.6), Amnt!(1234.5678), Amnt!(0.1), Amnt!(-273.15), Amnt!(451.0), Amnt!(98.6), Amnt!(-0.7), Amnt!(77.7), Amnt!(5778.0)];
+    for (i, u) in tus.iter().enumerate() {
+        println!("Temperature unit {} {:?} {} {}", i, u, u.name(), u.symbol());
+        for (j, v) in tus.iter().enumerate() {
+            for a in &temps {
+                let t: Temperature = *a * *u;
+                match TEMPERATURE_CONVERTER.convert(&t, *v) {
+                    Some(r) => println!("Temperature conv {} {} {} -> {} {:?}", i, j, show(*a), show(r.amount()), r.unit()),
+                    None => println!("Temperature conv {} {} {} -> none", i, j, show(*a)),
+                }
+            }
+        }
+    }
+}
+''' if 'temperature' in on else ''
+        return head + extra + temp + 'fn main() {\n    std::panic::set_hook(Box::new(|_| {}));\n' + '\n'.join(b for b in body if b) + '\n}\n'
+
+    def sections(out):
+        sec = {}
+        for line in out.splitlines():
+            sec.setdefault(line.split(' ', 1)[0], []).append(line)
+        return sec
+
+    rnd_c = random.Random(ctx['seed'] * 131 + 19)
+    if ctx['tier'] == 'quick':
+        smalls = [['mass', 'length', 'duration', 'temperature']] + [[f] for f in rnd_c.sample([f for f in FEATS if feats.get(f)], 3)]
+    else:
+        smalls = [['mass', 'length', 'duration', 'temperature']] + [[f] for f in FEATS]
     for be in ('f64', 'dec'):
         outs = []
-        for label, fs in (('minimal', ['mass', 'length', 'duration', 'temperature']), ('full', list(FEATS) + ['std', 'serde'])):
+        cfgs = [('full', list(FEATS) + ['std', 'serde'])] + [('only_' + '_'.join(fs) if len(fs) == 1 else 'minimal', fs) for fs in smalls]
+        for label, fs in cfgs:
             d = os.path.join(ctx['rundir'], 'corpus_%s_%s' % (label, be))
             os.makedirs(os.path.join(d, 'src'), exist_ok=True)
             fl = fs + (['fpdec'] if be == 'dec' else [])   # minimal: no std, four quantities; full: std, serde and all fourteen
@@ -611,7 +729,7 @@ def c19(ctx):
                     '', '[workspace]', '', '[profile.dev]', 'debug = false', 'incremental = false']
             open(os.path.join(d, 'Cargo.toml'), 'w').write('\n'.join(toml) + '\n')
             shutil.copy(cp.lockfile(repo), os.path.join(d, 'Cargo.lock'))
-            shutil.copy(os.path.join(ctx['root'], 'tools', 'corpus_main.rs'), os.path.join(d, 'src', 'main.rs'))
+            open(os.path.join(d, 'src', 'main.rs'), 'w', encoding='utf-8').write(gen_corpus([f for f in fs if f in FEATS]))
             env = dict(os.environ)
             env.update({'CARGO_NET_OFFLINE': 'true', 'CARGO_TARGET_DIR': tdir_base + '_corpus'})
             p = subprocess.run(['cargo', 'run', '--offline', '-q'], cwd=d, env=env, stdout=subprocess.PIPE, stderr=subprocess.PIPE, text=True, errors='replace', timeout=900)
@@ -621,9 +739,19 @@ def c19(ctx):
             else:
                 outs.append(p.stdout)
             shutil.rmtree(d, ignore_errors=True)
-        if None not in outs:
-            evs.append({'kind': 'corpus', 'be': be, 'same': outs[0] == outs[1], 'n': len(outs[0].splitlines()),
-                        'first_difference': next((a for a, b in zip(outs[0].splitlines(), outs[1].splitlines()) if a != b), '')})
+        if outs[0] is not None:
+            full = sections(outs[0])
+            for (label, fs), o in list(zip(cfgs, outs))[1:]:
+                if o is None:
+                    continue
+                sec = sections(o)
+                diff = ''
+                for T, lines in sorted(sec.items()):
+                    if full.get(T) != lines:
+                        fl_ = full.get(T, [])
+                        diff = next((a + '  <>  ' + b for a, b in zip(lines, fl_) if a != b), '%s: %d lines <> %d lines' % (T, len(lines), len(fl_)))
+                        break
+                evs.append({'kind': 'corpus', 'be': be, 'config': label, 'same': diff == '', 'n': len(o.splitlines()), 'first_difference': diff[:300]})
     tp = os.path.join(ctx['rundir'], 'c19.ndjson')
     write_trace(tp, {'ev': 'Header', 'be': 'f64', 'registry': 'cat', 'drv': 'c19', 'seed': ctx['seed'], 'tier': ctx['tier']}, evs, 'Config')
     return [('c19', tp, empty_obs(ctx, 'f64'), ctx['declared_for']('cat'))]
